@@ -31,9 +31,10 @@ class LeanDevice(object):
             raise lean.LeanError('driver rejected device line: %s -> %s' % (dev_line[:120], r))
 
     def faults(self, plan):
-        """Install a fault plan on the current device: [(k, 'c', code) | (k, 's', n)], k counts the
-        requests from now on (`c`: request k is answered with the bare completion code, unprocessed;
-        `s`: write request k stores and acknowledges only its first n data bytes)."""
+        """Install a fault plan on the current device: [(k, 'c', code) | (k, 's', n) | (k, 'a', n)], k counts
+        the requests from now on (`c`: request k is answered with the bare completion code, unprocessed;
+        `s`: write request k stores and acknowledges only its first n data bytes; `a`: write request k is
+        stored as sent and acknowledged with count n).  A plan may name several requests of one write."""
         spec = ' '.join('%d:%s:%d' % (int(k), t, int(v)) for k, t, v in plan) or '-'
         r = self.drv.ask('faults ' + spec)
         if r != 'ok':
